@@ -65,7 +65,7 @@ Invalid(sc) == sc.invalid # "none"
 (* Alg layer                                                               *)
 (***************************************************************************)
 Start(sc) == [pc |-> "format", fs |-> sc.pre, i |-> 1, cause |-> "none", nopen |-> 0, nwrite |-> 0,
-              fired |-> FALSE, hist |-> << >>, held |-> << >>]
+              fired |-> FALSE, hist |-> << >>, held |-> << >>, refs |-> << >>]
 Terminal(s) == s.pc \in {"done", "failed"}
 Fail(s, c)  == [s EXCEPT !.pc = "failed", !.cause = c]
 Goto(s, p)  == [s EXCEPT !.pc = p]
@@ -136,7 +136,8 @@ MSubCheck(sc, s) ==
 \* the earlier sub-files were written                                              (deviation SubsBeforeDump)
 MSubDump(sc, s) ==
   IF sc.unser = SubKey(Cur(sc, s)) THEN Fail(s, "unserialisable")
-  ELSE IF Variant = "twophase" THEN [s EXCEPT !.held = Append(s.held, Cur(sc, s)), !.i = s.i + 1, !.pc = "m_sub"]
+  ELSE IF Variant = "twophase" THEN [s EXCEPT !.held = Append(s.held, Cur(sc, s)), !.i = s.i + 1, !.pc = "m_sub",
+                                              !.refs = Append(s.refs, <<SubKey(Cur(sc, s)), SubName(Cur(sc, s))>>)]
   ELSE Goto(s, "m_sub_open")
 \* :937 / :943  with open(val_path.absolute, "w") as f
 MSubOpen(sc, s) == OpenW(sc, s, SubName(Cur(sc, s)), "m_sub_write")
@@ -147,7 +148,11 @@ Written(sc, s) == LET x == Cur(sc, s) IN
                   IF SubKind(x) = "content" /\ sc.inplace /\ Variant = "code" THEN s.fs[SubName(x)] ELSE SubKey(x)
 MSubWrite(sc, s) == WriteClose(sc, s, SubName(Cur(sc, s)), Written(sc, s), "m_sub_replace")
 \* :939 / :945  cfg[key] = basename -- the main document now refers to the file by name
-MSubReplace(sc, s) == [s EXCEPT !.i = s.i + 1, !.pc = "m_sub"]
+\* `refs` records what the saved document says where component `key` is to be found: the BARE name of the file just
+\* written, to be looked up in the directory of the main file -- whatever the path was that the component came from
+\* (a sub-directory of the input, an absolute path, ...)
+MSubReplace(sc, s) == [s EXCEPT !.i = s.i + 1, !.pc = "m_sub",
+                                !.refs = Append(s.refs, <<SubKey(Cur(sc, s)), SubName(Cur(sc, s))>>)]
 \* :950  with open(path_fc.absolute, "w") as f -- again opened before dump()           (deviation OpenBeforeDump)
 MOpen(sc, s) == OpenW(sc, s, "main", IF Variant = "code" THEN "m_serialize" ELSE "m_write")
 \* :949, :951  self.dump(cfg, skip_validation=True): no validation, but every inline value is serialised
@@ -221,9 +226,14 @@ AllOrNothing(sc, outcome, fired, fs) == (outcome = "raise" /\ MustBeAtomic(sc, f
 
 \* "when it succeeds, parsing the saved path reproduces the configuration, including configs loaded from sub-files":
 \* the main file holds the main document and every file it refers to holds the component that refers to it
-Reparses(sc, fs) == /\ fs["main"] = "main"
-                    /\ sc.multifile => \A x \in Range(sc.subs) : fs[SubName(x)] = SubKey(x)
-SavedReparses(sc, outcome, fs) == outcome = "ok" => Reparses(sc, fs)
+\* refs = what the saved documents say: <<component, file it is to be read from>>.  A reference that is not the bare
+\* name of a file of the output directory (the original path of the component, say) names nothing in fs.
+RefersTo(refs, k) == {refs[j][2] : j \in {jj \in 1..Len(refs) : refs[jj][1] = k}}
+Reparses(sc, fs, refs) == /\ fs["main"] = "main"
+                          /\ sc.multifile => \A x \in Range(sc.subs) :
+                                /\ RefersTo(refs, SubKey(x)) # {}
+                                /\ \A f \in RefersTo(refs, SubKey(x)) : f \in DOMAIN fs /\ fs[f] = SubKey(x)
+SavedReparses(sc, outcome, fs, refs) == outcome = "ok" => Reparses(sc, fs, refs)
 
 (***************************************************************************)
 (* The deviations of the pinned tree, by name (known findings are keyed on *)
@@ -252,7 +262,7 @@ DevName(sc, r) ==
   IF r.pc = "failed" /\ r.fs # sc.pre /\ DevSingleOpenBeforeDump(sc, r) THEN "single-open-before-dump"
   ELSE IF r.pc = "failed" /\ r.fs # sc.pre /\ DevMultiWrittenBeforeDump(sc, r)
        THEN (IF r.i > Len(sc.subs) THEN "multi-written-before-main-dump" ELSE "multi-written-before-sub-dump")
-  ELSE IF r.pc = "done" /\ Collision(sc) /\ ~Reparses(sc, r.fs) THEN "multi-name-collision"
+  ELSE IF r.pc = "done" /\ Collision(sc) /\ ~Reparses(sc, r.fs, r.refs) THEN "multi-name-collision"
   ELSE IF DevInplaceContentEmptied(sc, r) THEN "inplace-content-emptied"
   ELSE "none"
 =============================================================================
